@@ -5,6 +5,7 @@ CONSTANTS
   ClearChoices = {TRUE, FALSE}
   Installs = {TRUE}
   ResetsResult = TRUE
+  LateIgnored = TRUE
 CONSTRAINT ExportC
 INVARIANT ResultRight
 INVARIANT Guards
